@@ -472,6 +472,17 @@ Proof.
     pose proof (Hnew (ONative (skipn (length node_prefix) name) NCore)) as H. rewrite E in H. cbn [fst] in H. apply H.
 Qed.
 
+Lemma load_native_run_good st name : Inv st -> good st (fst (load_native_run nat_reg rq st name)).
+Proof.
+  intro HI. unfold load_native_run.
+  destruct (cache_get (native_cache st) name); [apply good_refl; exact HI|].
+  pose proof (load_native_good st name HI) as G. destruct (load_native nat_reg st name) as [st1 r]. cbn [fst] in G.
+  destruct r as [m| | | |]; try exact G.
+  remember (run_lazies rq st1 loader_file (assoc_reqs (n_loader_reqs nat_reg) (registered_name st1 m))) as rl eqn:ERL.
+  assert (G3 : good st1 (fst rl)) by (rewrite ERL; apply run_lazies_good; exact (proj1 G)).
+  destruct rl as [st2 oof]. cbn [fst] in *. exact (good_trans _ _ _ G G3).
+Qed.
+
 (* recording what a request path / a bare name resolved to (r.resolved[p] = module, r.nodeModules[key] = module, written
    unconditionally as in the code): the module is cached under its own path, so the invariant is kept *)
 Lemma alias_resolved_good st k m : Inv st -> good_res st (ROk m) ->
@@ -528,7 +539,7 @@ Proof.
     destruct (try_cands fs rq st (cands_file_or_dir fs (parse ps))) as [st1 x]. cbn [fst snd] in *.
     destruct x as [m| | | |]; try exact G. cbn [fst].
     eapply good_trans; [exact G|]. apply alias_resolved_good; [exact (proj1 G)|exact R].
-  - pose proof (load_native_good st r HI) as G0. destruct (load_native nat_reg st r) as [st0 rn]. cbn [fst] in G0.
+  - pose proof (load_native_run_good st r HI) as G0. destruct (load_native_run nat_reg rq st r) as [st0 rn]. cbn [fst] in G0.
     destruct rn as [m| | | |]; try exact G0.
     set (nk := render d ++ 0 :: r).
     destruct (cache_get (node_cache st0) nk) eqn:Ec; [exact G0|].
